@@ -352,6 +352,7 @@ func simDrive(op func(), pick func(step int, pending []*simCall) int, gate *simG
 		op()
 	}()
 	for step := 0; step < maxSteps; step++ {
+		vfBeat(nil)
 		synctest.Wait()
 		select {
 		case <-done:
